@@ -125,7 +125,7 @@ fn main() {
         std::process::exit(runner::replay(sc.as_ref(), &args[3]));
     }
     let tier = tier_from_args(&args);
-    let code = match property {
+    let code = mc::util::guard_main(property, || match property {
         "C01" => run_scenarios(
             "C01",
             &tier,
@@ -548,6 +548,6 @@ fn main() {
             eprintln!("unknown property {other}");
             2
         }
-    };
+    });
     std::process::exit(code);
 }
